@@ -15,7 +15,12 @@ ASSUMPTIONS = ["argument values are hashed by the caches and therefore restricte
 I, Bo = "int", "bool"
 
 
+SMALL = {"lru1": ("lru", 1), "hybrid1": ("hybrid", 1), "hybrid2": ("hybrid", 2)}  # caches that overflow within one call
+
+
 def _cache_kwargs(cache_type):
+    if cache_type in SMALL:
+        return {"shared": False, "max_size": SMALL[cache_type][1]}
     if cache_type == "lru":
         return {"shared": False, "max_size": 64}
     if cache_type == "hybrid":
@@ -29,7 +34,7 @@ def _twins(t, cache_type, mask):
     names = [fs.name for fs in t]
     cached = {nm for k, nm in enumerate(names) if (mask >> k) & 1}
     log_c, log_u = [], []
-    pc = runt.make(t, log_c, cache=lambda nm: nm in cached, cache_type=cache_type, cache_kwargs=_cache_kwargs(cache_type))
+    pc = runt.make(t, log_c, cache=lambda nm: nm in cached, cache_type=SMALL.get(cache_type, (cache_type,))[0], cache_kwargs=_cache_kwargs(cache_type))
     pu = runt.make(t, log_u)
     return pc, pu, log_c, log_u, cached
 
@@ -135,6 +140,8 @@ def history(rid, cache_type, mask, out_sel1, cut_sel1, out_sel2, cut_sel2, full1
                 return fail("cached pipeline returned a different value")
             all_roots = {prm for fs in t for prm in fs.params if prm not in prod and prm not in fs.bound}
             explicit = all_roots & {prm for fs in t if fs.name in runt.ref_eval(t, out, kw)[1] for prm in fs.params} <= set(cut)
+            if cache_type in SMALL:
+                continue  # entries are evicted within a call: which ones are still resident is C14's subject
             if k == 1 and not mutated and calls[0][:2] == calls[1][:2] and same_vals and not interior_supplied and not calls[0][2] and not calls[1][2] and explicit:
                 # repeated equal call: cached functions whose entry is resident are not re-executed
                 for nm in list(log_c)[n_before:]:
@@ -243,7 +250,7 @@ def _canary_key_without_values():
 CANARIES["last_root_arg_missing_from_key"] = _canary_key_without_values
 
 
-def obligations(tier):
+def obligations(tier):  # noqa: C901
     thorough = tier == "thorough"
     obs = []
     P = [("out_sel1", I), ("cut_sel1", I), ("out_sel2", I), ("cut_sel2", I), ("full1", Bo), ("full2", Bo), ("mut", I), ("newval", I), ("same_vals", Bo)] + [
@@ -293,6 +300,26 @@ def obligations(tier):
                             canaries=("last_root_arg_missing_from_key",) if (rid, ct, region) == ("R2", "lru", "roots") and mask == (1 << nf) - 1 else (),
                         )  # fmt: skip
                     )
+    for rid in ("R3", "R5"):
+        t = R[rid]
+        nf = len(t)
+        nouts = len([o for fs in t for o in fs.outputs])
+        for ct in ("hybrid1", "lru1") + (("hybrid2",) if thorough else ()):
+            for region in ("roots", "mutation"):
+                pre = [f"out_sel1 == {nouts - 1} and out_sel2 == out_sel1", "0 <= cut_sel1 <= 2 and 0 <= cut_sel2 <= 2", "0 <= a0 <= 1 and a1 == 0 and b0 == 0 and a2 == 0 and b1 == 0 and b2 == 0",
+                       "0 <= newval <= 1" if region == "mutation" else "newval == 0", "not full1"]
+                pre += ["mut == 0"] if region == "roots" else ["1 <= mut <= 3", "not full1 and not full2", "same_vals"]
+                obs.append(
+                    Ob(
+                        f"hist_{rid}_{ct}_{region}",
+                        P,
+                        pre,
+                        f"H.history({rid!r}, {ct!r}, {(1 << nf) - 1}, {PA}, {region!r})",
+                        timeout=600,
+                        bounds=f"{rid}: cache {SMALL[ct][0]} with max_size={SMALL[ct][1]} (overflows within one call), every function cached; two calls"
+                        + (", update_defaults / update_bound / replace in between" if region == "mutation" else "") + ": every call that succeeds uncached returns an equal value",
+                    )
+                )
     for ct in ctypes:
         for kind in (0, 1):
             obs.append(
